@@ -63,6 +63,12 @@ def gen_bytes_cases(ctx):
     for n in big:
         yield bytes(r.randrange(256) for _ in range(n))
         yield b"\xff" * n
+    # long runs of one value (padding, zero-filled buffers) at and across every plausible block boundary, with data
+    # in front of and behind them
+    for fill in (0, 0, 255, 32, 128):
+        for run in (63, 64, 127, 128, 255, 256, 257, 511, 512, 1023, 1024, 4096):
+            for head in (b"", b"A", bytes(r.randrange(1, 256) for _ in range(r.choice([1, 7, 255, 256])))):
+                yield head + bytes([fill]) * run + bytes([r.randrange(1, 256)]) + bytes(r.randrange(256) for _ in range(r.choice([0, 3])))
 
 
 def run(ctx):
@@ -174,6 +180,18 @@ def run(ctx):
         s.case({"codepoints": cps(t[:16]), "levels": "DEBUG,INFO,WARNING"})
         s.count("levels")
     streams.append(s)
+
+    # --- the comparison of a received checksum with the computed one must not live in an assert statement: the C09 sweep
+    # of damaged messages in an interpreter started with -O
+    oq = Stream("python-O")
+    res = common.run_under_O("C09", "optimised_sweep", 4 if ctx.thorough else 1, "C06.O/%d" % common.seed())
+    oq.evaluations += res["evaluations"]
+    oq.nontrivial.update(range(res["evaluations"]))
+    oq.samples.append({"interpreter": "python -O", "assertions_enabled": res["debug"]})
+    for f_ in res["failures"][:1]:
+        oq.fail(f_, "under python -O a message whose checksum does not match its content is %s (%s)" % (
+            "accepted" if f_["impl"].startswith("ok") else "rejected although well-formed", f_["kind"]), "C06/python-O/mismatch")
+    streams.append(oq)
 
     # --- several threads checksumming long texts / byte strings at the same time: each gets the checksum of its own data
     s = Stream("concurrent-calls")
